@@ -85,6 +85,29 @@ impl Family for C06 {
       let order = gen_order(rng, &sources, 1);
       return spec_to_json(p, &sources, &order, vec![("reenter", Json::Arr(vec![]))]);
     }
+    if rng.below(50) == 0 {
+      // contains / all directly on a hot source (or two merged ones): the verdict is caused by an
+      // item, and the subscriber makes the source emit again from inside the verdict's delivery
+      let mut sources = gen_sources(rng, 2, 4, false, &[Mode::Hot]);
+      let items: Vec<i64> = sources[0].scripts[0].iter().filter_map(|s| if let Step::N(x) = s { Some(*x) } else { None }).collect();
+      if items.is_empty() {
+        sources[0].scripts[0].insert(0, Step::N(105));
+      }
+      let items: Vec<i64> = sources[0].scripts[0].iter().filter_map(|s| if let Step::N(x) = s { Some(*x) } else { None }).collect();
+      let hit = *rng.pick(&items);
+      let merged = rng.below(2) == 0;
+      let inner = if merged { Json::obj(vec![("multi", Json::str("merge")), ("ins", Json::Arr(vec![Json::obj(vec![("src", Json::Int(0))]), Json::obj(vec![("src", Json::Int(1))])]))]) } else { Json::obj(vec![("src", Json::Int(0))]) };
+      if !merged {
+        sources.truncate(1);
+      }
+      let input = Json::obj(vec![("op", Json::str("probe")), ("a", Json::Int(1)), ("in", inner)]);
+      // all(k): predicate family of pipe.rs - k = 1 means "even"
+      let cause = if rng.below(2) == 0 { Json::obj(vec![("op", Json::str("contains")), ("a", Json::Int(hit)), ("in", input)]) } else { Json::obj(vec![("op", Json::str("all")), ("a", Json::Int(1)), ("in", input)]) };
+      let p = Json::obj(vec![("op", Json::str("probe")), ("a", Json::Int(0)), ("in", cause)]);
+      let order = gen_order(rng, &sources, 1);
+      let re = vec![Json::obj(vec![("on", Json::str("next")), ("do", Json::Int(rng.below(sources.len() as u64) as i64))])];
+      return spec_to_json(p, &sources, &order, vec![("reenter", Json::Arr(re))]);
+    }
     let shape_amb_unbounded_loser = rng.below(30) == 0;
     let cause = if shape_amb_unbounded_loser {
       // amb whose first input signals inside subscribe and stays open (hot source behind start_with),
@@ -280,7 +303,20 @@ impl Family for C06 {
               // rest when the call returns), so an abort from below cannot reach their siblings yet
               let only_items_in_progress = r.src_logs.iter().all(|l| l.lock().unwrap().emits.iter().filter(|e| e.seq_start < s_at && e.seq_end > s_at).all(|e| matches!(e.step, Step::N(_))))
                 && r.subject_emits.iter().filter(|e| e.seq_start < s_at && e.seq_end > s_at).all(|e| matches!(e.step, Step::N(_)));
-              let horizon = if (cop == "contains" || cop == "all") && only_items_in_progress { s_at } else { horizon(s_at) };
+              // (creation functions such as just / from_iter are not instrumented: they play - and
+              // complete - inside subscribe, so nothing is judged without horizon there either)
+              // - and only when the operator sits directly on its sources (plain sources, possibly
+              // merged): behind other operators an item can itself be the product of a completion
+              // further up (count / reduce / last / default_if_empty ... emit when their input ends,
+              // and a trigger item or a last item ends take_until / take), with the same effect
+              fn direct_input(n: &Json) -> bool {
+                if n.get("src").is_some() || n.get("new").is_some() {
+                  return true;
+                }
+                n.get("multi").and_then(|x| x.as_str()) == Some("merge") && n.a("ins").iter().all(direct_input)
+              }
+              let direct = cause.get("in").and_then(|p1| p1.get("in")).map_or(false, direct_input);
+              let horizon = if (cop == "contains" || cop == "all") && direct && only_items_in_progress && s_at > r.subscribe_returned { s_at } else { horizon(s_at) };
               for i in &below {
                 let l = r.src_logs[*i].lock().unwrap();
                 if let Some(e) = l.emits.iter().find(|e| e.seq_start > horizon && e.sub_before) {
